@@ -6,12 +6,20 @@ at the *live* schema (its column keys, which are regex / required, whether it
 has an index) so that every generated request is applicable, and at the data
 table so that the mirrored frame stays acceptable by construction:
 
-  add_columns     <-> frame gets the new column filled with good pool values
+  add_columns     <-> frame[label] = good pool values for every passed column:
+                      a label the schema already has is REPLACED at its
+                      position (assign semantics), a new one is appended;
+                      1-3 columns per call, new and replacing ones mixed
+                      (a regex key is replaced by a regex column: every
+                      matching label gets the new values)
   remove_columns  <-> frame.drop(columns)           (regex key: every match)
   select_columns  <-> frame[columns in that order]  (regex key: every match)
   rename_columns  <-> frame.rename(columns=...)     (non-regex keys only)
-  update_column(s)<-> frame unchanged for neutral / relaxing updates and for
-                      replaced checks that the pool satisfies; astype for dtype
+  update_column(s)<-> frame unchanged for neutral / relaxing updates (including
+                      options cleared with None and falsy values: title="",
+                      metadata={}, checks=[], default=0, ...), for tightening
+                      ones the data satisfies and for replaced checks that the
+                      pool satisfies; astype for dtype
   set_index       <-> frame.set_index(keys, drop=, append=)      (pandas only)
   reset_index     <-> frame.reset_index(level=, drop=)           (pandas only)
 """
@@ -57,6 +65,9 @@ class State:
         self.frame_dtype = spec.get("dtype")
         self.level_dtype = {lv["name"]: lv["dtype"] for lv in spec.get("index") or []}
         self.counter = 0
+        # the real objects handed to the last transforming request
+        self.last_added = {}     # key -> Column passed to add_columns
+        self.last_kw = {}        # key -> built keyword arguments of the update
 
     @property
     def index(self):
@@ -82,14 +93,20 @@ def gen_step(rng, st: State):
     methods += ["component_checks"]
     for _ in range(8):
         m = rng.choice(methods)
+        if rng.random() < 0.04 and m in ("add_columns", "remove_columns", "rename_columns",
+                                         "update_column", "update_columns"):
+            # empty request: nothing named, everything is "untouched"
+            k = rng.choice(keys) if keys else None
+            if m == "update_column" and k is None:
+                continue
+            return {"add_columns": {"m": m, "cols": []},
+                    "remove_columns": {"m": m, "keys": []},
+                    "rename_columns": {"m": m, "map": {}},
+                    "update_column": {"m": m, "key": k, "kw": {}},
+                    "update_columns": {"m": m, "upd": {k: {}} if k is not None
+                                       and rng.random() < 0.5 else {}}}[m]
         if m == "add_columns":
-            st.counter += 1
-            dt = st.frame_dtype or (rng.choice(["int", "float"]) if st.numeric_only
-                                    else rng.choice(["int", "float", "str", "bool", "dt"]))
-            col = G.gen_column(rng, f"n{st.counter}", dt, backend=st.backend,
-                               allow_custom=False, p_drop=0.3)
-            col["required"] = True
-            return {"m": m, "col": col}
+            return {"m": m, "cols": gen_add(rng, st, keys, plain)}
         if m == "remove_columns" and len(keys) >= 2:
             ks = rng.sample(keys, 1 if rng.random() < 0.8 or len(keys) < 3 else 2)
             return {"m": m, "keys": ks}
@@ -137,8 +154,131 @@ def gen_step(rng, st: State):
     return {"m": "select_columns", "keys": keys}
 
 
+def is_empty_request(step):
+    m = step["m"]
+    return (m == "add_columns" and not add_cols(step)) \
+        or (m == "remove_columns" and not step["keys"]) \
+        or (m == "rename_columns" and not step["map"]) \
+        or (m == "update_column" and not step["kw"]) \
+        or (m == "update_columns" and not any(step["upd"].values()))
+
+
+def add_cols(step):
+    """Column specs of an add_columns step (older witnesses: one "col")."""
+    return step["cols"] if "cols" in step else [step["col"]]
+
+
+def _new_dtype(rng, st, avoid=None, distinct_values=False):
+    if st.frame_dtype:
+        return st.frame_dtype
+    cand = ["int", "float"] if st.numeric_only else ["int", "float", "str", "bool", "dt"]
+    if distinct_values:
+        cand = [d for d in cand if d != "bool"]
+    if avoid in cand and len(cand) > 1 and rng.random() < 0.75:
+        cand = [d for d in cand if d != avoid]      # mostly: another dtype
+    return rng.choice(cand)
+
+
+def gen_add(rng, st, keys, plain):
+    """1-3 columns for one add_columns call.  Each is either new or re-defines
+    a key the schema already has (the mirrored frame operation, assignment,
+    replaces an existing label in place)."""
+    n = 1 if rng.random() < 0.6 else rng.randint(2, 3)
+    joint = set(getattr(st.schema, "unique", None) or [])
+    taken, cols = set(), []
+    for _ in range(n):
+        if keys and rng.random() < 0.4:
+            k = rng.choice(keys)
+            if k in taken:
+                continue
+            taken.add(k)
+            regex = st.cols[k]["regex"]
+            if regex:
+                dt = st.frame_dtype or rng.choice(
+                    ["int", "float"] if st.numeric_only else ["int", "float", "str"])
+            else:
+                dt = _new_dtype(rng, st, avoid=st.cols[k]["dtype"],
+                                distinct_values=k in joint)
+            col = G.gen_column(rng, k, dt, backend=st.backend, regex=regex,
+                               allow_custom=False, p_drop=0.3)
+            if regex:
+                col["unique"] = False
+                if st.backend == "polars":
+                    # polars unique_values_eq on a regex-selected column raises
+                    # ColumnNotFoundError (not a C15 matter): use another check
+                    col["checks"] = [c for c in col["checks"]
+                                     if c["kind"] != "unique_values_eq"]
+            col["replaces"] = True
+        else:
+            st.counter += 1
+            col = G.gen_column(rng, f"n{st.counter}", _new_dtype(rng, st),
+                               backend=st.backend, allow_custom=False, p_drop=0.3)
+        col["required"] = True
+        cols.append(col)
+    if not cols:
+        st.counter += 1
+        col = G.gen_column(rng, f"n{st.counter}", _new_dtype(rng, st),
+                           backend=st.backend, allow_custom=False, p_drop=0.3)
+        col["required"] = True
+        cols.append(col)
+    return cols
+
+
+# values that clear an option / falsy values an update has to honour like any
+# other value
+_FALSY_DEFAULT = {"int": 0, "float": 0.0, "str": "", "const": 0}
+
+
+def is_set(v):
+    return v is not None and not (isinstance(v, (list, dict, str)) and len(v) == 0)
+
+
+def gen_clear(rng, st, k):
+    """Update whose new value is None or falsy."""
+    dt = st.cols[k]["dtype"]
+    col = st.schema.columns[k]
+    opts = ["title", "description", "metadata", "default", "checks", "dtype"]
+    if st.backend == "pandas":
+        opts.append("parsers")
+    # prefer options that currently have a value (clearing them is observable)
+    live = [a for a in opts if is_set(getattr(col, a, None))]
+    kw = {}
+    for a in rng.sample(live, min(len(live), rng.randint(1, 2))) if live and \
+            rng.random() < 0.8 else [rng.choice(opts)]:
+        if a == "dtype":
+            kw[a] = None
+            if rng.random() < 0.6:       # no requirement on the values at all
+                kw.setdefault("checks", None if rng.random() < 0.6 else [])
+        elif a in ("title", "description"):
+            kw[a] = None if rng.random() < 0.65 else ""
+        elif a == "metadata":
+            kw[a] = None if rng.random() < 0.65 else {}
+        elif a in ("checks", "parsers"):
+            kw[a] = None if rng.random() < 0.6 else []
+        elif a == "default":
+            kw[a] = None if rng.random() < 0.6 or dt not in _FALSY_DEFAULT \
+                else _FALSY_DEFAULT[dt]
+    return kw
+
+
 def gen_update(rng, st, k):
     dt = st.cols[k]["dtype"]
+    if rng.random() < 0.3:
+        return gen_clear(rng, st, k)
+    if rng.random() < 0.12:
+        # tightening / switching-off values the data satisfies
+        opts = [{"nullable": False}, {"coerce": False}, {"unique": False}]
+        if not (st.backend == "polars" and st.cols[k]["regex"]):
+            # (polars regex columns: a check that cannot run there is only
+            # tolerated while drop_invalid_rows is on - not a C15 matter)
+            opts.append({"drop_invalid_rows": False})
+        if st.backend == "pandas":
+            opts.append({"report_duplicates": "all"})
+        if not st.cols[k]["regex"] and k in st.frame.columns:
+            opts.append({"required": True})
+            if dt in ("int", "float", "str", "dt"):
+                opts.append({"unique": True})
+        return rng.choice(opts)
     r = rng.random()
     if r < 0.2:
         return {"title": "new title"}
@@ -168,7 +308,7 @@ def gen_invalid(rng, st: State):
     keys = list(st.schema.columns)
     opts = ["remove_unknown", "remove_mixed", "select_unknown", "rename_unknown",
             "update_unknown", "update_name", "update_columns_unknown",
-            "update_columns_name", "set_index_unknown"]
+            "update_columns_name", "update_columns_falsy_name", "set_index_unknown"]
     if len(keys) >= 2:
         opts.append("rename_to_existing")
     if st.backend == "pandas":
@@ -180,9 +320,9 @@ def gen_invalid(rng, st: State):
 def _kw(pa, st, k, kw, polars):
     out = {}
     for a, v in kw.items():
-        if a == "checks":
+        if a == "checks" and v:
             out[a] = [G.build_check(pa, st.cols[k]["dtype"], c, polars) for c in v]
-        elif a == "dtype":
+        elif a == "dtype" and v is not None:
             out[a] = G._pl_dtype(v) if polars else G._pd_dtype(v)
         else:
             out[a] = copy.deepcopy(v)
@@ -196,8 +336,9 @@ def apply_schema(step, st: State, schema=None):
     polars = st.backend == "polars"
     m = step["m"]
     if m == "add_columns":
-        c = step["col"]
-        return S.add_columns({c["name"]: G.build_column(c, st.backend)})
+        st.last_added = {c["name"]: G.build_column(c, st.backend)
+                         for c in add_cols(step)}
+        return S.add_columns(dict(st.last_added))
     if m == "remove_columns":
         return S.remove_columns(list(step["keys"]))
     if m == "select_columns":
@@ -205,10 +346,11 @@ def apply_schema(step, st: State, schema=None):
     if m == "rename_columns":
         return S.rename_columns(dict(step["map"]))
     if m == "update_column":
-        return S.update_column(step["key"], **_kw(pa, st, step["key"], step["kw"], polars))
+        st.last_kw = {step["key"]: _kw(pa, st, step["key"], step["kw"], polars)}
+        return S.update_column(step["key"], **dict(st.last_kw[step["key"]]))
     if m == "update_columns":
-        return S.update_columns({k: _kw(pa, st, k, kw, polars)
-                                 for k, kw in step["upd"].items()})
+        st.last_kw = {k: _kw(pa, st, k, kw, polars) for k, kw in step["upd"].items()}
+        return S.update_columns({k: dict(kw) for k, kw in st.last_kw.items()})
     if m == "set_index":
         return S.set_index(list(step["keys"]), drop=step["drop"], append=step["append"])
     if m == "reset_index":
@@ -243,6 +385,11 @@ def apply_invalid(step, st: State):
         return S.update_columns({k: {"nullable": True}, "no_such_col": {"nullable": True}})
     if w == "update_columns_name":
         return S.update_columns({k: {"name": "other_name", "nullable": True}})
+    if w == "update_columns_falsy_name":
+        # a falsy new name is still a request to rename through update
+        falsy = [v for v in ("", None, 0) if v != k]
+        return S.update_columns({k: {"name": falsy[step["pick"] % len(falsy)],
+                                     "nullable": True}})
     if w == "set_index_unknown":
         return S.set_index([k, "no_such_col"])
     if w == "reset_no_index":
@@ -261,20 +408,25 @@ def apply_data(step, st: State, new_schema):
     if polars:
         import polars as pl
     if m == "add_columns":
-        c = step["col"]
-        vals = list(G.POOL[c["dtype"]])
-        if polars:
-            import datetime
-            if c["dtype"] == "dt":
+        for c in add_cols(step):
+            vals = list(G.POOL[c["dtype"]])
+            if polars and c["dtype"] == "dt":
+                import datetime
                 vals = [datetime.datetime.fromisoformat(v) for v in vals]
-            D = D.with_columns(pl.Series(c["name"], vals, dtype=G._pl_dtype(c["dtype"])))
-        else:
-            D = D.copy()
-            D[c["name"]] = G._pd_series(c["dtype"], vals).values
-        st.cols[c["name"]] = {"dtype": c["dtype"], "regex": False, "required": True,
-                              "bad": next((k["bad"] for k in c["checks"]
-                                           if k.get("bad") is not None
-                                           and not k.get("raise_warning")), None)}
+            # assignment: an existing label is replaced in place, a new one is
+            # appended; a regex key stands for every label it matches
+            labs = st.labels(c["name"]) if c.get("regex") else [c["name"]]
+            for lab in labs:
+                if polars:
+                    D = D.with_columns(pl.Series(lab, vals, dtype=G._pl_dtype(c["dtype"])))
+                else:
+                    D = D.copy()
+                    D[lab] = G._pd_series(c["dtype"], vals).values
+            st.cols[c["name"]] = {"dtype": c["dtype"], "regex": bool(c.get("regex")),
+                                  "required": True,
+                                  "bad": next((k["bad"] for k in c["checks"]
+                                               if k.get("bad") is not None
+                                               and not k.get("raise_warning")), None)}
     elif m == "remove_columns":
         labs = [l for k in step["keys"] for l in st.labels(k)]
         D = D.drop(labs) if polars else D.drop(columns=labs)
@@ -291,7 +443,7 @@ def apply_data(step, st: State, new_schema):
     elif m in ("update_column", "update_columns"):
         upd = {step["key"]: step["kw"]} if m == "update_column" else step["upd"]
         for k, kw in upd.items():
-            if "dtype" in kw:
+            if kw.get("dtype") is not None:
                 for lab in st.labels(k):
                     D = (D.with_columns(pl.col(lab).cast(pl.Float64)) if polars
                          else D.astype({lab: "float64"}))
@@ -301,7 +453,7 @@ def apply_data(step, st: State, new_schema):
             if "required" in kw:
                 st.cols[k]["required"] = kw["required"]
             if "checks" in kw:
-                st.cols[k]["bad"] = next((c["bad"] for c in kw["checks"]
+                st.cols[k]["bad"] = next((c["bad"] for c in kw["checks"] or []
                                           if c.get("bad") is not None), None)
     elif m == "set_index":
         D = D.set_index(list(step["keys"]), drop=step["drop"], append=step["append"])
